@@ -11,15 +11,19 @@ LEVEL = 'model_checking'
 BUDGET_S = {'quick': 90, 'thorough': 600}
 BOUNDS = {
     'quick': 'edges: arguments into subbuild/build_file callee; value returned by subbuild/build_file fresh and served from '
-             'cache, at root level and inside a caching parent; list_dir and walk results; in-place mutations append / pop / '
+             'cache, at root level and inside a caching parent; list_dir and walk results; one container object occurring several times '
+             'inside the arguments or the returned value; in-place mutations append / pop / '
              'clear / nested set-item / nested append on a value [i, [j], {"k": [m]}] with symbolic integer leaves; histories of '
              '3 builds (unchanged rebuilds) and B.B.M.B for query results (tree of in/, in/x, in/y symbolic)',
     'thorough': 'same edges with two nested levels and 4 builds',
 }
 ASSUMPTIONS = ['user functions are deterministic: the pristine value is what every build must return']
-WITNESSES = {'quick': ['mutated-returned-value', 'mutated-cached-value', 'mutated-listing'], 'thorough': ['mutated-returned-value']}
+WITNESSES = {'quick': ['mutated-returned-value', 'mutated-cached-value', 'mutated-listing', 'shared-container'], 'thorough': ['mutated-returned-value']}
 
-EDGES = ['ret-sb', 'ret-bf', 'ret-sb-nested', 'ret-bf-nested', 'args-sb', 'args-bf', 'kwargs-sb', 'kwargs-bf', 'list_dir', 'walk']
+EDGES = ['ret-sb', 'ret-bf', 'ret-sb-nested', 'ret-bf-nested', 'args-sb', 'args-bf', 'kwargs-sb', 'kwargs-bf', 'list_dir', 'walk',
+         # one container object occurring twice inside a value: the two occurrences arrive as independent copies (a JSON round
+         # trip has no sharing)
+         'shared-args-sb', 'shared-args-bf', 'shared-ret-sb', 'shared-ret-bf']
 MUTS = ['append', 'pop', 'clear', 'nested-append', 'nested-setitem']
 
 
@@ -66,8 +70,17 @@ def harness(eng, fam, P):
     def pristine():
         return [i, [j], {'k': [m]}]
 
+    def twice():
+        l = [i, [j]]
+        return {'a': l, 'b': l, 'c': [l, l]}
+
     def leaf_sb(b, *args, **kw):
         calls.append('leaf')
+        if fam.startswith('shared-ret'):
+            return twice()
+        if fam.startswith('shared-args'):
+            do_mut(args[0], how, x)        # the callee edits one parameter ...
+            return [copy.deepcopy(args[1]), copy.deepcopy(kw['q'])]   # ... and reports the others
         for a in list(args) + list(kw.values()):
             if isinstance(a, list):
                 do_mut(a, how, x)          # the callee edits its argument
@@ -75,6 +88,9 @@ def harness(eng, fam, P):
 
     def leaf_bf(b, fn, *args, **kw):
         calls.append('leaf')
+        if fam.startswith('shared-'):
+            w.user_write(w.fs, fn, 5)
+            return leaf_sb(b, *args, **kw) if calls.pop() else None
         for a in list(args) + list(kw.values()):
             if isinstance(a, list):
                 do_mut(a, how, x)
@@ -133,6 +149,16 @@ def harness(eng, fam, P):
             r = call_leaf(b, 'sb' if fam == 'kwargs-sb' else 'bf', (), {'opt': a})
             seen.append(copy.deepcopy(a))
             return 0
+        if fam.startswith('shared-args'):
+            a = [i, [j]]
+            r = call_leaf(b, 'sb' if fam.endswith('sb') else 'bf', (a, a), {'q': a})
+            seen.append(copy.deepcopy(r))
+            return 0
+        if fam.startswith('shared-ret'):
+            r = call_leaf(b, 'sb' if fam.endswith('sb') else 'bf')
+            do_mut(r['a'], how, x)                  # the caller edits one occurrence ...
+            seen.append([copy.deepcopy(r['b']), copy.deepcopy(r['c'][0]), copy.deepcopy(r['c'][1])])   # ... and looks at the others
+            return 0
         r = b.subbuild('lister', lister)
         seen.append(copy.deepcopy(r))
         return 0
@@ -168,6 +194,13 @@ def harness(eng, fam, P):
                     eng.check('C11.reexecuted-without-change', 'lister' not in calls, sig + ('build%d' % (k + 1),),
                               info={'calls': list(calls), 'build': k + 1})
                 eng.witness('mutated-listing')
+            elif fam.startswith('shared-'):
+                eng.check('C11.occurrences-of-one-container-aliased', L.and_(*[L.eq(v_, [i, [j]]) for v_ in seen[-1]]),
+                          sig + ('build%d' % (k + 1),), info={'other occurrences': repr(seen[-1])[:200], 'build': k + 1})
+                if k > 0:
+                    eng.check('C11.reexecuted-without-change', not calls, sig + ('build%d' % (k + 1),),
+                              info={'calls': list(calls), 'build': k + 1})
+                eng.witness('shared-container')
             elif fam.startswith('args') or fam.startswith('kwargs'):
                 eng.check('C11.caller-argument-mutated', L.eq(seen[-1], [i, [j]]), sig)
                 if k > 0:
